@@ -5,7 +5,7 @@
 
 package eni
 
-//@ for C01 C09
+//@ for C01 C04 C09
 
 //@ # ---- the owner field of a pool address: cleared only by its owner (a replayed release — CNI DEL retry, a later GC pass
 //@ # ---- over a record that survived — never takes the address from the pod that holds it now), written only over "no owner" or the same pod ----
@@ -70,8 +70,15 @@ package eni
 //@   ensures forall q *IP :: q != ip ==> q.status == old(q.status)
 
 //@ # an address is marked for unassignment only while no pod holds it (pool shrink and start-up trim)
+//@ for C06
 //@ guard call IP.Dispose in Dispose: recv.podID == ""
 //@ guard call IP.Dispose in load: recv.podID == ""
+//@ for C06 C05
+//@ # start-up: the stored bindings are re-applied BEFORE the pool is trimmed to its cap, so the trim sees which addresses
+//@ # are held and never marks an acknowledged pod's address for unassignment
+//@ ghost c05trimmed bool = false
+//@ guard call IP.Allocate in load: !c05trimmed
+//@ for C06
 
 //@ for C06 C15
 //@ # pool sets hold no nil entry (assumed on read, proved where entries are written)
@@ -191,6 +198,7 @@ package eni
 //@ # ---- pool start-up from stored records: no record (each names a pod, see daemon.getPodResources) makes load dereference nil ----
 //@ func Local.load
 //@   requires l != nil && l.factory != nil && l.ipv4 != nil && l.ipv6 != nil
+//@   at call IP.Dispose: ghost c05trimmed = true
 //@   requires forall i int :: 0 <= i && i < len(podResources) ==> podResources[i].PodInfo != nil
 //@   panics
 
@@ -287,8 +295,12 @@ package eni
 //@ func Local.Release
 //@   requires l != nil && cni != nil
 //@   modifies IP.podID
+//@ for C01 C04 C06 C09
+//@ # releasing through the set changes nothing but addresses the releasing pod owns (a replayed DEL or GC release for a
+//@ # pod that no longer owns the address is a no-op)
 //@ func Set.Release
 //@   modifies IP.podID
+//@   ensures forall q *IP :: old(q.podID) != podID ==> q.podID == old(q.podID)
 
 //@ for C12
 //@ # ---- CRD (v2) multi-IP results: the interface whose subnet, gateway and MAC are reported is one that holds an address
